@@ -63,6 +63,8 @@ package gcsizes
 // complex64/128 are aligned like [2]float32/64; everything else like its size, at least 1, at most ma
 //@ axiom [align_complex] forall ws int64, ma int64, T types.Type :: {gcAlign(ws, ma, T)} istype(T.Underlying(), *types.Basic) && isComplexKind(astype(T.Underlying(), *types.Basic).Kind()) ==> gcAlign(ws, ma, T) == clampAlign(ma, gcSize(ws, ma, T) / 2)
 //@ axiom [align_other]  forall ws int64, ma int64, T types.Type :: {gcAlign(ws, ma, T)} !istype(T.Underlying(), *types.Array) && !istype(T.Underlying(), *types.Struct) && !(istype(T.Underlying(), *types.Basic) && isComplexKind(astype(T.Underlying(), *types.Basic).Kind())) ==> gcAlign(ws, ma, T) == clampAlign(ma, gcSize(ws, ma, T))
+//@ axiom [underlying_idem] forall T types.Type :: {T.Underlying().Underlying()} T.Underlying().Underlying() == T.Underlying()
+//@ axiom [size_underlying] forall ws int64, ma int64, T types.Type :: {gcSize(ws, ma, T.Underlying())} gcSize(ws, ma, T.Underlying()) == gcSize(ws, ma, T) && gcAlign(ws, ma, T.Underlying()) == gcAlign(ws, ma, T)
 //@ axiom [ranges] forall ws int64, ma int64, T types.Type :: {gcAlign(ws, ma, T)} wfSizes(ws, ma) ==> 1 <= gcAlign(ws, ma, T) && gcAlign(ws, ma, T) <= ma && gcSize(ws, ma, T) >= 0
 //@ group
 
@@ -100,6 +102,12 @@ package gcsizes
 //@   induct   i
 //@   trigger  offS(ws, ma, fs, i), gcOff(ws, ma, S, i)
 
+//@ lemma endS_is_gcEnd(ws int64, ma int64, S *types.Struct, fs []*types.Var, i int)
+//@   uses     gcspec, offS_is_gcOff
+//@   requires 0 <= i && i <= len(fs) && len(fs) == S.NumFields() && (forall j int :: {fs[j]} 0 <= j && j < len(fs) ==> fs[j] == S.Field(j))
+//@   ensures  endS(ws, ma, fs, i) == gcEnd(ws, ma, S, i)
+//@   trigger  endS(ws, ma, fs, i), gcEnd(ws, ma, S, i)
+
 //@ func (*Sizes).Offsetsof
 //@   uses     gcspec
 //@   requires s != nil && wfSizes(s.WordSize, s.MaxAlign) && (forall j int :: {fields[j]} 0 <= j && j < len(fields) ==> fields[j] != nil)
@@ -108,3 +116,12 @@ package gcsizes
 //@   loop 1   invariant [o]    o == endS(s.WordSize, s.MaxAlign, fields, i) && o >= 0
 //@   loop 1   invariant [len]  len(offsets) == len(fields)
 //@   loop 1   invariant [done] forall j int :: {offsets[j]} 0 <= j && j < i ==> offsets[j] == offS(s.WordSize, s.MaxAlign, fields, j) && offsets[j] >= 0
+
+//@ immutable go/build.Default
+// ForArch: word size and maximum alignment of the target (the obsolete amd64p32 excluded)
+//@ ghost archWord() int64
+//@ ghost archMax() int64
+//@ func ForArch
+//@   trusted
+//@   ensures result != nil && !old(allocated(result)) && result.WordSize == archWord() && result.MaxAlign == archMax()
+//@   ensures build.Default.GOARCH != "amd64p32" ==> wfSizes(archWord(), archMax())
